@@ -334,4 +334,10 @@ def r4(F, R):
     R.floor(2)
 
 
-RULES = [("R1", r1, None), ("R2", r2, None), ("R3", r3, None), ("R4", r4, None)]
+def r5(F, R):
+    """The configured limit survives `Clone` (Cucumber builders and runners are Clone): the hand-written `Basic::clone`
+    fills every field from the like-named field."""
+    roles.check_field_faithful_clone(F, R, "runner::basic::Basic", "runner")
+
+
+RULES = [("R1", r1, None), ("R2", r2, None), ("R3", r3, None), ("R4", r4, None), ("R5", r5, None)]
